@@ -68,6 +68,7 @@ def c13_family(tier, sd=0):
     s_ = single([("u", 16), ("str",), ("i", 8)])
     fam.append(dataclasses.replace(s_, impls=[("can", s_.top, None, {"id": 7, "note": "\u00b0C \u00b5V"}, [])]))
     add([("dyn", ("struct", "In")), ("u", 8)], structs=[In8])
+    add([("u", 3), ("str",), ("u", 5), ("dyn", ("str",))])        # strings that start in the middle of a byte
     # containers of containers that agree on their outer levels and differ below
     add([("arr", ("arr", ("u", 8), 2), 2), ("arr", ("arr", ("u", 16), 3), 2), ("dyn", ("arr", ("i", 8), 2)), ("dyn", ("arr", ("i", 32), 2))])
     # sub-byte widths and offsets
